@@ -124,3 +124,5 @@ func lens(r [][]float64) []int {
 }
 
 func TestInitialiseStates(t *testing.T) { pbt.Run(t, genInit, checkInit) }
+
+func FuzzVectorisedRun(f *testing.F) { pbt.Fuzz(f, vrun.GenFor("", 1, 8), vrun.Check) }
